@@ -219,6 +219,58 @@ def r5(ctx, rep):
     rep.borrowed(C12.r1, ctx, "C17.R5", "the lexer's error path returns errors: its panic-capable sites stay within their reviewed classes", only=r"^(class|guard):lexer/")
 
 
+CONSUMING = {"then", "then_ignore", "ignore_then", "repeated", "separated_by", "delimited_by", "padded_by", "foldl", "foldr"}
+
+
+def r6(ctx, rep):
+    """A token re-lexes to itself only if accepting it never needs text beyond its own span. A look-ahead (`.rewind()`, `.not()`,
+    `and_is(..)`) is such a need. It is harmless in two cases: the token's own parser goes on to consume what was looked at (the digit
+    after `@` in a date), or the look-ahead also accepts the end of input (then the token lexes at the end of its own slice)."""
+    from guards import parents
+    rep.rule("C17.R6", "every look-ahead in the lexer is followed by consumption inside the same token or accepts end of input", floor=2)
+    syn = ctx.syn
+    n = 0
+    for f in syn.fns_in_file(LEX):
+        if "body" not in f or f.get("in_test"):
+            continue
+        par = parents(f["body"])
+        for x in walk(f["body"]):
+            if not (x.get("k") == "mcall" and x["m"] in ("rewind", "not", "and_is") and x.get("r") is not None):
+                continue
+            if x["m"] == "rewind" and show(x["r"]) in ("input", "inp") or (x["m"] == "rewind" and x["a"]):
+                continue  # imperative `input.rewind(checkpoint)` in a custom parser: covered by C08.R12 (quotes given back)
+            n += 1
+            looked = x["r"] if x["m"] != "and_is" else x["a"][0]
+            accepts_end = any(c.get("k") == "call" and last_seg(show(c["f"])) == "end" and not c["a"] for c in walk(looked)) or \
+                any(c.get("k") == "call" and show(c["f"]) == "end_expr" for c in walk(looked))
+            # climb: is the look-ahead followed, inside the same combinator chain, by something that consumes input?
+            cur, consumed_after = x, False
+            while id(cur) in par:
+                p_ = par[id(cur)]
+                if p_.get("k") == "mcall":
+                    if p_.get("r") is cur:
+                        if p_["m"] in CONSUMING:
+                            consumed_after = True
+                            break
+                    # cur is an argument of p_ (`.then(<look-ahead>)`, `.then_ignore(<look-ahead>)`): go on from p_, what follows p_ in the chain follows the look-ahead
+                    cur = p_
+                    continue
+                if p_.get("k") in ("paren", "ref"):
+                    cur = p_
+                    continue
+                break
+            whole_fn_is_lookahead = tail_expr(f["body"]) is x
+            key = f"lookahead:{f['name']}:{n}"
+            if whole_fn_is_lookahead:
+                # a helper that *is* a look-ahead (end_expr): its users append it to a token; it must accept the end of input itself
+                rep.check(accepts_end, key, f"{f['name']} is a look-ahead helper that does not accept the end of input", file=f["file"], line=x["l"], fn=f["path"])
+            else:
+                rep.check(consumed_after or accepts_end, key, f"{f['name']}: the token parser ends in a look-ahead `{show(looked, maxdepth=6)[:80]}` that neither is consumed by the same token afterwards nor "
+                          "accepts end of input: whether the token lexes depends on the character after its span, so the token's own slice does not lex to the same token",
+                          file=f["file"], line=x["l"], fn=f["path"])
+    rep.check(n >= 2, "sites", f"expected the look-aheads of end_expr and date_token, found {n}")
+
+
 def run(ctx, rep):
-    for r in (r1, r2, r3, r4, r5):
+    for r in (r1, r2, r3, r4, r5, r6):
         rep.guard(r, ctx)
